@@ -76,3 +76,6 @@ pub fn ceil_log2_usize(x: F64) -> (r: usize)
         x@ is Fin && x@->Fin_0 <= 1real ==> r == 0,
         x@ is Fin && x@->Fin_0 > 1real ==> 1 <= r <= 1024 && rpow(2real, (r - 1) as nat) < x@->Fin_0 <= rpow(2real, r as nat),
 { x.v.log2().ceil() as usize }
+// T4: <[T]>::contains (used on id lists)
+pub assume_specification<T: core::cmp::PartialEq>[ <[T]>::contains ](s: &[T], x: &T) -> (r: bool)
+    ensures r == s@.contains(*x);
